@@ -18,7 +18,7 @@ use std::time::{Duration, Instant};
 use vcommon::recording::{POp, PVal, ProgramEntry};
 use vcommon::serde_json::{Value, json};
 use vcommon::stream::{EntryKind, Ev, IdEntry, Outcome, StreamShared, make_id};
-use vcommon::sync::is_miri;
+use vcommon::sync::{is_miri, progress_wait};
 use vcommon::{Args, Fnv, Report, Rng};
 
 // ------------------------------------------------------------------------------------------
@@ -533,6 +533,58 @@ fn simultaneous_outage(rep: &Report) {
     rep.distinct(Fnv::new().str("simultaneous-outage").finish());
 }
 
+/// The in-band error report refused (validation error) or failing (I/O error) at the stream, with the
+/// process-wide one-per-second slot known to be free (this runs alone, after a pause): the entries
+/// after it are all delivered, once, in order, and at most one report is handed over within the second.
+fn refused_report_scenarios(rep: &Report) {
+    for (mode, name) in [(Outcome::Validation, "refused with a validation error"), (Outcome::Io, "failing with an I/O error")] {
+        std::thread::sleep(Duration::from_millis(1100));
+        rep.eval();
+        let sh = StreamShared::new(7);
+        sh.set_script(move |k| match k {
+            EntryKind::Id(id) if id % 2 == 1 => Outcome::Validation,
+            EntryKind::ErrorReport(_) => mode,
+            _ => Outcome::Ok,
+        });
+        let sh2 = sh.clone();
+        let done = std::thread::spawn(move || {
+            let (q, handle) = BackgroundQueueBuilder::new().capacity(64).flush_interval(Duration::from_millis(1)).build::<IdEntry>(sh2.stream());
+            for s in 0..10 {
+                q.append(IdEntry::new(0, s));
+            }
+            let flushed = progress_wait(|| sh2.log().iter().filter(|e| e.id().is_some()).count() == 10, Duration::from_secs(5));
+            drop(q);
+            if flushed {
+                handle.shut_down();
+            } else {
+                handle.forget();
+            }
+            flushed
+        })
+        .join();
+        let log = sh.log();
+        let ids: Vec<u64> = log.iter().filter_map(|e| e.id()).collect();
+        let reports = log.iter().filter(|e| matches!(e, Ev::Next { kind: EntryKind::ErrorReport(_), .. })).count();
+        let want: Vec<u64> = (0..10).map(|s| make_id(0, s)).collect();
+        if done.is_err() || ids != want {
+            rep.violation(
+                "sink-entry-lost-duplicated-or-reordered",
+                json!({"what": format!("no tracing subscriber; every other entry fails validation; the in-band error report is itself {name} by the stream: every appended entry must still be handed to the stream once, in order"),
+                       "entries_delivered": ids.len(), "appended": 10, "report_entries": reports, "shutdown_or_writer_panicked": done.is_err()}),
+            );
+            return;
+        }
+        if reports > 1 {
+            rep.violation(
+                "sink-extra-entries-at-the-stream",
+                json!({"what": format!("five validation failures within a few milliseconds, the in-band report {name}: at most one report entry per second may be handed to the stream"), "report_entries": reports}),
+            );
+            return;
+        }
+        rep.count("refused_report_scenarios", 1);
+    }
+}
+
 fn sinks_part(args: &Args, rep: &Report, rounds: u64) {
     let mut rng = Rng::derive(args.seed, 0xabc);
     for round in 0..rounds {
@@ -692,6 +744,10 @@ fn main() {
         bytes_part(&args, &rep, Duration::from_secs(secs));
         if rep.violation_count() == 0 {
             sinks_part(&args, &rep, args.get_u64("sink_rounds", args.by_tier(600, 6000)));
+        }
+        // (ASan legs run with a subscriber-less process too; the scenario is cheap)
+        if rep.violation_count() == 0 && tracing::dispatcher::has_been_set() == false {
+            refused_report_scenarios(&rep);
         }
     }
     rep.finish_and_exit();
